@@ -129,6 +129,18 @@ class Random(IO):
     def _name(self):
         return self._info[1]
 
+    def __dask_tokenize__(self):
+        # ``rng`` is a mutable operand: tokenizing the operands would hash the
+        # generator's *current* state, so two arrays drawn one after the other
+        # looked identical to every parent expression (``r1 + 1`` and
+        # ``r2 + 1`` got one name).  The name already identifies the
+        # realization (per-block seeds fixed at draw time).
+        if not self._determ_token:
+            from dask.tokenize import _tokenize_deterministic
+
+            self._determ_token = _tokenize_deterministic(type(self), self._name)
+        return self._determ_token
+
     @property
     def bitgens(self):
         return self._info[0]
